@@ -60,7 +60,7 @@ def gen(prop, stream, tier, avoid):
         objs.append(spec)
     use_cont = kn.chance(0.6)
     nops = kn.pick([3, 4, 5, 6, 8, 10, 14, 20])
-    W = [("sample", 3), ("tessellate", 3), ("read", 4), ("edit", 1.5), ("quad", 0.7), ("export", 3)]
+    W = [("sample", 3), ("tessellate", 3), ("read", 4), ("edit", 1.5), ("quad", 0.7), ("export", 3), ("bad_tessellate", 0.5)]
     if use_cont:
         W += [("cadd", 2.5), ("csample", 1), ("ctess", 2.5), ("cread", 2.5)]
     W = [(k, w * kn.uniform(0.4, 1.4)) for k, w in W]
@@ -81,6 +81,9 @@ def gen(prop, stream, tier, avoid):
             op["force"] = rng.chance(0.5)
         elif k == "edit":
             op["seed"] = rng.randrange(1 << 30)
+        elif k == "bad_tessellate":
+            op["how"] = rng.pick(["spacing_zero", "spacing_zero", "spacing_negative", "container_spacing_zero"])
+            op["after_reset"] = rng.chance(0.7)
         elif k == "csample":
             op["n"] = rng.randint(3, min(max_n, 12))
         elif k == "ctess":
@@ -490,6 +493,26 @@ def run(script, ctx):
             ctx.log("edit", i)
             ctx.ops_executed += 1
             touched(st)
+        elif k == "bad_tessellate":
+            # a tessellation request the library cannot carry out: whatever it does with it (raise, ignore), the next
+            # valid request must again produce a valid mesh of the current surface
+            if op["after_reset"]:
+                nu, nv = s.sample_size
+                s.sample_size_u = nu       # re-applying the sampling drops the current mesh, as the exporters do
+            try:
+                if op["how"] == "container_spacing_zero" and members:
+                    cont.tessellate(vertex_spacing=0)
+                else:
+                    s.tessellate(vertex_spacing=0 if op["how"] != "spacing_negative" else -1, force=True)
+                outcome = "returned"
+            except Exception as e:
+                outcome = type(e).__name__
+            ctx.fault("failing_tessellate_call")
+            ctx.log("bad_tessellate", i, op["how"], outcome)
+            ctx.ops_executed += 1
+            touched(st)
+            for m in members:
+                touched(world[m])
         elif k == "quad":
             nu, nv = s.sample_size
             qt = g.tessellate.QuadTessellate()
